@@ -52,6 +52,7 @@ class Spec:
         self.none_value = none_value
         self.ignore_attrs = set(ignore_attrs)
         self.is_init = method == "__init__"
+        self.guards = ()
         self.unfold = unfold
         self.kinds = {py: kind for py, _, kind in self.rec}
 
@@ -166,6 +167,17 @@ class Spec:
             if isinstance(tg, ast.Attribute) and isinstance(tg.value, ast.Name) and tg.value.id == "self" and tg.attr in self.ignore_attrs:
                 return go(env)
             raise Shape("assignment target %s" % txt(tg))
+        if isinstance(s, ast.AugAssign) and isinstance(s.op, (ast.Add, ast.Sub)):
+            tg = s.target
+            if isinstance(tg, ast.Attribute) and isinstance(tg.value, ast.Name) and tg.value.id == "self" and tg.attr in env.fields:
+                e2 = env.copy()
+                e2.fields[tg.attr] = "(%s %s %s)" % (env.fields[tg.attr], "+" if isinstance(s.op, ast.Add) else "-", self.expr(s.value, env))
+                return go(e2)
+            raise Shape("augmented assignment %s" % txt(s))
+        if (isinstance(s, ast.If) and len(s.body) == 1 and isinstance(s.body[0], ast.Raise) and not s.orelse
+                and txt(s.test) in getattr(self, "guards", ())):
+            # an argument check that raises: outside the translated function (the model's own guard is named in the spec)
+            return go(env)
         if isinstance(s, ast.If):
             c = self.expr(s.test, env)
             a = self.run(list(s.body) + rest, env.copy(), on_fall, on_ret, depth + 1)
@@ -230,7 +242,7 @@ class Spec:
     # ---------------------------------------------------------------- output
     def term(self):
         f = self.find(self.method)
-        env = Env({} if self.is_init else {py: "%s self" % proj for py, proj, _ in self.rec})
+        env = Env(dict(getattr(self, "pre_fields", {})) if self.is_init else {py: "%s self" % proj for py, proj, _ in self.rec})
         # parameters of the python method beyond self are bound through externals / params by name
         for a in f.args.args[1:]:
             if a.arg in self.externals:
@@ -256,7 +268,7 @@ class Spec:
             return ("Lemma src_%s : forall %s, %s %s = %s %s.\nProof. intros. reflexivity. Qed.\n" % (
                 self.gen, " ".join("(%s : %s)" % p for p in self.params), self.gen, ps, self.model, ps))
         return ("Lemma src_%s : forall (self : %s) %s, %s self %s = %s self %s.\n"
-                "Proof.\n  intros self %s. destruct self. unfold %s. cbn.\n"
+                "Proof.\n  intros self %s; destruct self; repeat (match goal with x : bool |- _ => destruct x end); unfold %s; cbn;\n"
                 "  repeat match goal with |- context [if ?b then _ else _] => destruct b eqn:? end;\n"
                 "  try reflexivity; try (exfalso; lia); try (f_equal; f_equal; lia).\nQed.\n" % (
                     self.gen, rtype, " ".join("(%s : %s)" % p for p in self.params), self.gen, ps, self.model, ps,
